@@ -379,8 +379,17 @@ package q
 //@   oncall reflect.Value.Index#2 check same-element: arg1 == i
 //@   loop 1 iter step: i == old(i) + 1
 //@   loop 1 iter keeps-iff-true: nKept - old(nKept) <= 1
+// C15 (termination of variable references): a definition is evaluated only
+// while its name is marked in engine.evaluating, and a name that is already
+// marked is refused with an error. Every nested reference therefore marks one
+// more of the finitely many variable names: the nesting depth is bounded by
+// their number (the variant is the number of unmarked names; argued from the
+// two clauses, not machine-checked as a decreases clause).
 //@ func VariableExpr.Evaluate
-//@   props C16
+//@   props C16 C15
+//@   oncall Statement.Evaluate check marked-while-evaluating: engine.evaluating[e.Name]
+//@   oncall Statement.Evaluate check was-not-marked: !old(engine.evaluating[e.Name])
+//@   ensures re-entry-refused: implies(old(engine.evaluating[e.Name]), !isnil(result1))
 //@   requires engine != nil && forall(j, 0, len(engine.Statements), engine.Statements[j] != nil)
 //@   ghost st int = 0
 //@   oncall Engine.StatementByVariableName check by-name: arg0 == engine && arg1 == e.Name
@@ -391,6 +400,7 @@ package q
 //@   requires e != nil && forall(j, 0, len(e.Statements), e.Statements[j] != nil)
 //@   loop 1 invariant not-earlier: forall(j, 0, rangeindex + 1, e.Statements[j] == nil || e.Statements[j].VariableName != name)
 //@   ensures found: implies(isnil(result1), result0 != nil && result0.VariableName == name)
+//@   assigns alloc
 // Combine: every argument, in order, evaluated on the same input, appended
 // onto the slice built so far (which starts empty).
 //@ func CombineExpr.Evaluate
